@@ -9,7 +9,7 @@ EXPLANATION = ('Static rules on the five subject types (instances of the same ma
                'one live range of the `observers` guard; J2 every notification first moves the waiting subscribers from the side list into '
                'the live list (load) and subscribe only ever pushes into the side list; J3 terminals take() the live list, unsubscribe takes '
                'both lists, is_finished/is_closed answer "live list is None", subscribing to an unsubscribed subject yields an empty '
-               'subscriber; J4 the terminal broadcast skips closed subscribers; J6 the live list is not edited during a broadcast (every present subscriber is visited once); J5 the stored subscriber handle delivers under its slot guard and never re-fills its slot (unsubscribe-one is effective and final). Decides the mechanism behind "a subscriber added during an '
+               'subscriber; J4 the terminal broadcast skips closed subscribers; J7 unsubscribe() closes the live list before the waiting chamber, the order load()/len()/is_empty() rely on (same rule as C10.L6); J6 the live list is not edited during a broadcast (every present subscriber is visited once); J5 the stored subscriber handle delivers under its slot guard and never re-fills its slot (unsubscribe-one is effective and final). Decides the mechanism behind "a subscriber added during an '
                'emission does not see the in-flight item"; does not decide exactly-once delivery over join/leave histories.')
 ASSUMPTIONS = ['SmallVec keeps insertion order; RefCell/Mutex guards give exclusive access']
 
@@ -57,6 +57,19 @@ def _lists(cx, adt_path):
 
 
 def check(cx):
+    return _check(cx) + j7(cx)
+
+
+def j7(cx):
+    """after unsubscribe() every call on any clone still returns (finished / empty): the two lists are emptied in the order their
+    readers rely on (same rule as C10.L6) — otherwise a concurrent or re-entrant next/len/is_empty panics on the half-closed subject"""
+    if cx.control:
+        return []
+    from . import c10
+    return [Finding(ID, 'J7', f.key, f.ok, f.msg, f.loc, f.witness) for f in c10.l6(cx)]
+
+
+def _check(cx):
     F = cx.facts
     res = []
     subs = _subjects(cx)
